@@ -3,6 +3,7 @@ package main
 // C13 — DNS tunnel sessions are isolated from each other and from spoofers.
 
 import (
+	"strings"
 	"fmt"
 	"go/token"
 	"go/types"
@@ -314,16 +315,81 @@ func checkC13(w *World, r *Report) {
 	if fn := w.SSAFunc(validate); fn != nil {
 		key := "method:(*streams/dns.ServerDnsListener).validateAndGetUser|address-first"
 		bad := ""
-		addrCmp := func(v ssa.Value) bool {
-			b, ok := v.(*ssa.BinOp)
-			if !ok || (b.Op != token.EQL && b.Op != token.NEQ) {
-				return false
+		// addrEq: v is a boolean that is true only if the two network addresses are equal as full strings
+		// (String() == String(), which includes port and IPv6 zone). pos reports the polarity: the value
+		// being `want` means "equal".
+		strCmp := func(v ssa.Value) (eqWhen bool, ok bool) {
+			b, isB := v.(*ssa.BinOp)
+			if !isB || (b.Op != token.EQL && b.Op != token.NEQ) {
+				return false, false
 			}
 			isStr := func(x ssa.Value) bool {
 				c, ok := x.(*ssa.Call)
 				return ok && c.Call.IsInvoke() && c.Call.Method.Name() == "String"
 			}
-			return isStr(b.X) && isStr(b.Y)
+			if isStr(b.X) && isStr(b.Y) {
+				return b.Op == token.EQL, true
+			}
+			return false, false
+		}
+		helperOK := map[*ssa.Function]int{} // 1 = true only under string equality, 2 = no
+		var helperReason string
+		addrEq := func(v ssa.Value) (eqWhen bool, ok bool) {
+			if w, ok := strCmp(v); ok {
+				return w, true
+			}
+			c, isC := v.(*ssa.Call)
+			if !isC {
+				return false, false
+			}
+			callee := c.Call.StaticCallee()
+			if callee == nil || !inModule(callee) || len(callee.Blocks) == 0 || callee.Signature.Results().Len() != 1 {
+				return false, false
+			}
+			if bt, ok := callee.Signature.Results().At(0).Type().Underlying().(*types.Basic); !ok || bt.Kind() != types.Bool {
+				return false, false
+			}
+			// only helpers comparing two addresses are candidates
+			naddr := 0
+			for _, p := range callee.Params {
+				if types.IsInterface(p.Type()) && strings.HasSuffix(p.Type().String(), "net.Addr") {
+					naddr++
+				}
+			}
+			if naddr < 2 {
+				return false, false
+			}
+			if helperOK[callee] == 0 {
+				helperOK[callee] = 1
+				enumPaths(callee, nil, nil, nil, func(e pathExit) {
+					ret, isRet := e.Last.(*ssa.Return)
+					if !isRet {
+						return
+					}
+					rv := e.State.Resolve(ret.Results[0])
+					if b, isConst := constBool(rv); isConst && !b {
+						return
+					}
+					if t, known := e.State.Truth(rv); known && !t {
+						return
+					}
+					if w, ok := strCmp(rv); ok && w {
+						return
+					}
+					eq := false
+					for fv, t := range e.State.Facts {
+						if w, ok := strCmp(fv); ok && w == t {
+							eq = true
+						}
+					}
+					if !eq {
+						helperOK[callee] = 2
+						helperReason = fmt.Sprintf("%s can report two addresses as equal on a path that never compared them as full strings (String() includes port and IPv6 zone; IP/port field comparisons drop the zone)", ssaFuncKey(callee))
+					}
+				})
+			}
+			// a candidate helper is an address comparison either way; whether it is exact is reported below
+			return true, true
 		}
 		nst := 0
 		allInstrs(fn, func(in ssa.Instruction) {
@@ -342,12 +408,20 @@ func checkC13(w *World, r *Report) {
 					continue
 				}
 				ifi, ok := b.Instrs[len(b.Instrs)-1].(*ssa.If)
-				if !ok || !addrCmp(ifi.Cond) {
+				if !ok {
 					continue
 				}
-				eqEdge := 0
-				if ifi.Cond.(*ssa.BinOp).Op == token.NEQ {
-					eqEdge = 1
+				cond, neg := stripNot(ifi.Cond)
+				eqWhen, isCmp := addrEq(cond)
+				if !isCmp {
+					continue
+				}
+				if neg {
+					eqWhen = !eqWhen
+				}
+				eqEdge := 1
+				if eqWhen {
+					eqEdge = 0
 				}
 				if edgeDominates(b, eqEdge, stt.Block()) {
 					okd = true
@@ -365,9 +439,12 @@ func checkC13(w *World, r *Report) {
 			}
 			eq := false
 			for v, t := range e.State.Facts {
-				if addrCmp(v) {
-					b := v.(*ssa.BinOp)
-					if (b.Op == token.EQL && t) || (b.Op == token.NEQ && !t) {
+				cond, neg := stripNot(v)
+				if eqWhen, isCmp := addrEq(cond); isCmp {
+					if neg {
+						eqWhen = !eqWhen
+					}
+					if eqWhen == t {
 						eq = true
 					}
 				}
@@ -376,6 +453,11 @@ func checkC13(w *World, r *Report) {
 				bad = "validateAndGetUser returns success on a path where the owner address was not found equal to the message's source"
 			}
 		})
+		for _, st := range helperOK {
+			if st == 2 {
+				bad = helperReason
+			}
+		}
 		r.Check(bad == "", "R13.2", key, w.Pos(fn.Pos()), fmt.Sprintf("%d state update(s) after the address comparison; success only for the owner's address", nst), bad)
 	} else {
 		r.Undecided("R13.2", "method:(*streams/dns.ServerDnsListener).validateAndGetUser|address-first", "-", "anchor unresolved")
